@@ -171,6 +171,11 @@ func (wl *w2Workload) genRequest(g *Rng) *proto.WriteRequest {
 	if wl.opts.bigRanges && g.Chance(6) {
 		req.DeleteRanges = append(req.DeleteRanges, &proto.DeleteRangeRequest{StartInclusive: "bulk/", EndExclusive: "bulk/~"})
 	}
+	if wl.opts.bigRanges && g.Chance(8) {
+		// a range holding about as many keys as the engine's switch from per-key deletes to a range tombstone
+		from := g.Intn(50)
+		req.DeleteRanges = append(req.DeleteRanges, &proto.DeleteRangeRequest{StartInclusive: fmt.Sprintf("bulk/%03d", from), EndExclusive: fmt.Sprintf("bulk/%03d", from+90+g.Intn(21))})
+	}
 	if len(req.Puts)+len(req.Deletes)+len(req.DeleteRanges) == 0 {
 		req.Puts = append(req.Puts, wl.genPut(g))
 	}
